@@ -83,10 +83,15 @@ Lemma start_sync_ff_off : forall fx p ff n st,
   negb (has_ready st) && (ff <? Z.of_nat (length n) - 1) = false -> start_sync_ff fx p ff n st = start_sync fx p n st.
 Proof. intros fx p ff n st H. unfold start_sync_ff. rewrite H. reflexivity. Qed.
 
-(* the code as it was when the defect was found: every earlier repair made, this one not *)
+(* the code as it was when the defect was found (/repo d0557bc): every repair made until then, not this
+   one, and not yet asyncImport's check that the chain it reads is the chain the handler is synced to
+   ([f_import_tipcheck], C07, made since).  With that check and without this repair the same restart
+   does not end with a wrong report but with a rescan that is retried for ever: the stored record of
+   the batch's last height is the abandoned block's (observed on the real code: import-only family of
+   harness/cmd/c06, crash right after ImportWallet). *)
 Definition before_ff_check : fixes :=
   {| f_removable := true; f_rollback := true; f_import_retry := true; f_start_reorg := true; f_rollback_order := true;
-     f_import_tipcheck := true; f_removable_debit := true; f_ff_check := false |}.
+     f_import_tipcheck := false; f_removable_debit := true; f_ff_check := false |}.
 
 (* ---------------------------------------------------------------- the witness *)
 
